@@ -297,6 +297,9 @@ func runArchive(sb *sandbox, ents []tarEnt, named string) string {
 			Annotations: map[string]string{ocispec.AnnotationTitle: archiveTitle, file.AnnotationUnpack: "true"}}
 		if err := st.Push(ctx, desc, bytes.NewReader(gz)); err != nil {
 			res = "err"
+			if os.Getenv("VERIF_DEBUG") != "" {
+				fmt.Fprintln(os.Stderr, "C11 push error:", err)
+			}
 		}
 	}
 	if named != "" {
@@ -473,10 +476,10 @@ func runC11(seed int64, tier string, sc *Script) map[string]any {
 	// extraction into a directory that already holds symbolic links leading outside: a
 	// directory link (entries beneath it) and a file link (an entry of the same name)
 	archivePrepop = func(sb *sandbox) {
-		os.MkdirAll(filepath.Join(sb.wd, "d", "d"), 0o755)
-		os.Symlink(filepath.Join(sb.root, "outside"), filepath.Join(sb.wd, "d", "d", "out"))
-		os.Symlink(filepath.Join(sb.root, "outside", "victim"), filepath.Join(sb.wd, "d", "d", "vlink"))
-		os.Symlink("../../../../outside/victim", filepath.Join(sb.wd, "d", "d", "rlink"))
+		os.MkdirAll(filepath.Join(sb.wd, "d"), 0o755)
+		os.Symlink(filepath.Join(sb.root, "outside"), filepath.Join(sb.wd, "d", "out"))
+		os.Symlink(filepath.Join(sb.root, "outside", "victim"), filepath.Join(sb.wd, "d", "vlink"))
+		os.Symlink("../../../../outside/victim", filepath.Join(sb.wd, "d", "rlink"))
 	}
 	runOne("prepop-dirlink", []tarEnt{{'r', "d/out/victim", ""}}, "")
 	runOne("prepop-dirlink", []tarEnt{{'r', "d/out/newfile", ""}}, "")
@@ -492,8 +495,24 @@ func runC11(seed int64, tier string, sc *Script) map[string]any {
 	runOne("dir-dotdot", []tarEnt{{'d', "d/../../../escaped", ""}, {'r', "d/../../../escaped/x", ""}}, "")
 	runOne("dir-abs", []tarEnt{{'d', "ABS:outside/newdir", ""}}, "")
 	archivePrepop = func(sb *sandbox) {
-		os.MkdirAll(filepath.Join(sb.wd, "d", "d"), 0o755)
-		os.Symlink(filepath.Join(sb.root, "outside"), filepath.Join(sb.wd, "d", "d", "out"))
+		os.MkdirAll(filepath.Join(sb.wd, "d"), 0o755)
+		os.Symlink(filepath.Join(sb.root, "outside"), filepath.Join(sb.wd, "d", "out"))
+	}
+	// entries two and three levels below a link the directory already holds, with real
+	// directories in between (the link's destination has sub-directories of its own)
+	archivePrepop = func(sb *sandbox) {
+		os.MkdirAll(filepath.Join(sb.wd, "d"), 0o755)
+		os.MkdirAll(filepath.Join(sb.root, "outside", "sub", "deeper"), 0o755)
+		os.WriteFile(filepath.Join(sb.root, "outside", "sub", "victim2"), []byte("precious"), 0o644)
+		os.Symlink(filepath.Join(sb.root, "outside"), filepath.Join(sb.wd, "d", "out"))
+	}
+	runOne("prepop-dirlink-deep", []tarEnt{{'r', "d/out/sub/victim2", ""}}, "")
+	runOne("prepop-dirlink-deep", []tarEnt{{'r', "d/out/sub/new", ""}}, "")
+	runOne("prepop-dirlink-deep", []tarEnt{{'d', "d/out/sub/newdir", ""}}, "")
+	runOne("prepop-dirlink-deep", []tarEnt{{'r', "d/out/sub/deeper/new", ""}}, "")
+	archivePrepop = func(sb *sandbox) {
+		os.MkdirAll(filepath.Join(sb.wd, "d"), 0o755)
+		os.Symlink(filepath.Join(sb.root, "outside"), filepath.Join(sb.wd, "d", "out"))
 	}
 	runOne("prepop-dirlink-mkdir", []tarEnt{{'d', "d/out/planted", ""}}, "")
 	runOne("prepop-dirlink-mkdir", []tarEnt{{'d', "d/out/planted/deeper", ""}}, "")
